@@ -282,7 +282,9 @@ namespace sim
       {
          std::uint64_t h = hash_u64( 0xcbf29ce484222325ULL, e.cls );
          h = hash_u64( h, e.id );
-         h = fnv1a( e.what.data(), e.what.size(), h );
+         if( e.cls != EXC_SYSTEM ) {  // what() of filesystem errors names the per-process temp file
+            h = fnv1a( e.what.data(), e.what.size(), h );
+         }
          h = hash_u64( h, e.byte );
          h = hash_u64( h, e.line );
          h = hash_u64( h, e.col );
